@@ -26,6 +26,9 @@ Objs ==
   UNION {{DenseOf(s, off) : off \in {0, 11}} : s \in ShapesF}
   \cup UNION {UNION {{SparseOf(s, c, rv, off) : rv \in BOOLEAN, off \in {0, 5}} : c \in Patterns(Prod(s))} : s \in ShapesF}
   \cup UNION {{KOf(s, R, off) : R \in 1..3, off \in {0, 13}} : s \in ShapesF}
+  \* header numbers with more than one digit: rank 10 and 12, a mode of length 11, a matrix with 10 columns
+  \cup {KOf(<<2, 3>>, 10, 0), KOf(<<3>>, 12, 13), KOf(<<11, 2>>, 2, 0), MOf(2, 10, 0), MOf(12, 1, 4),
+        DenseOf(<<10, 2>>, 0), SparseOf(<<12, 10>>, {1, 55, 120}, FALSE, 5), SparseOf(<<2, 3, 2>>, 1..12, TRUE, 0)}
   \cup {MOf(r, c, off) : r \in 1..3, c \in 1..3, off \in {0, 4}}
 
 Stimuli == {[obj |-> o, base |-> b] : o \in Objs, b \in 0..1}
